@@ -4,11 +4,19 @@
    knows (monotone in the view) - theorems about the abstract voting loop that HgImpl
    instantiates; (2) the admitted DAG, the per-creator listings and the insertion counter are
    untouched by the consensus passes; (3) the batching clause of the property is FALSE of the
-   code: C03_batching_refuted.  The full order-independence / prefix statements are kept as
-   Definitions below; the check evaluates them on every generated DAG (harness cmd/sim -dagrun). *)
+   code: C03_batching_refuted; (4) stages S2/S3 (Proofs/FirstDesc .. Proofs/Agreement): in
+   per-event mode under static membership, round, witness flag, Lamport timestamp and strongly-see
+   of a stored event are functions of its ancestry (and no pass ever fails): any two reachable states (any insertion
+   orders, any cuts, any node) over one universe assign the same values to the events they share
+   (C03_round_function_of_ancestry, C03_lamport_function_of_ancestry,
+   C03_strongly_see_function_of_ancestry, C03_order_independent_shared).  The full
+   order-independence / prefix statements (which also cover which events get admitted, frames and
+   blocks) are kept as Definitions below; the check evaluates them on every generated DAG (harness
+   cmd/sim -dagrun). *)
 From Coq Require Import ZArith List Bool Permutation.
 From V Require Import Model.ZMap Model.Quorum Model.Voting Model.VotingRef Model.HgImpl Model.HgBatch
-  Proofs.VotingProofs Proofs.VotingTheorems Proofs.BatchRefute.
+  Proofs.VotingProofs Proofs.VotingTheorems Proofs.BatchRefute Proofs.AdmissionProofs Proofs.BlockInv
+  Proofs.OrderProofs Proofs.Static Proofs.Agreement Proofs.AgreementU.
 Import ListNotations.
 Open Scope Z_scope.
 
@@ -46,12 +54,68 @@ Theorem C03_batching_refuted :
 Proof. exact batching_witness. Qed.
 Print Assumptions C03_batching_refuted.
 
+(** Stages S2/S3: division results are functions of the ancestry (per-event mode, static
+    membership).  st1 and st2 are ANY two reachable states over one universe:
+    different insertion orders, different cuts of the DAG, different nodes. *)
+
+(* round and witness flag: set at the event's insertion, the same in every state that stores it *)
+Theorem C03_round_function_of_ancestry :
+  forall genesis all self1 self2 oracle1 oracle2 ops1 ops2 x e1 e2,
+  ids_determine all -> no_accept all -> Forall (hop_ok all) ops1 -> Forall (hop_ok all) ops2 ->
+  let st1 := hrun (init_hg self1 genesis oracle1) ops1 in
+  let st2 := hrun (init_hg self2 genesis oracle2) ops2 in
+  get_event st1 x = Some e1 -> get_event st2 x = Some e2 ->
+  ev_round e1 = ev_round e2 /\ ev_round e1 <> None /\
+  zget x (round_memo st1) = zget x (round_memo st2) /\ zget x (witness_memo st1) = zget x (witness_memo st2).
+Proof.
+  exact (fun g all s1 s2 o1 o2 ops1 ops2 x e1 e2 ID NA H1 H2 => u_round g all ID NA s1 s2 o1 o2 ops1 ops2 H1 H2 x e1 e2).
+Qed.
+Print Assumptions C03_round_function_of_ancestry.
+
+Theorem C03_lamport_function_of_ancestry :
+  forall genesis all self1 self2 oracle1 oracle2 ops1 ops2 x e1 e2,
+  ids_determine all -> no_accept all -> Forall (hop_ok all) ops1 -> Forall (hop_ok all) ops2 ->
+  let st1 := hrun (init_hg self1 genesis oracle1) ops1 in
+  let st2 := hrun (init_hg self2 genesis oracle2) ops2 in
+  get_event st1 x = Some e1 -> get_event st2 x = Some e2 -> ev_lt e1 = ev_lt e2 /\ ev_lt e1 <> None.
+Proof.
+  exact (fun g all s1 s2 o1 o2 ops1 ops2 x e1 e2 ID NA H1 H2 => u_lamport g all ID NA s1 s2 o1 o2 ops1 ops2 H1 H2 x e1 e2).
+Qed.
+Print Assumptions C03_lamport_function_of_ancestry.
+
+(* _stronglySee(x, w) read through the coordinates (first descendants of w gain entries over
+   time, the walk stops at witnesses) has one value, whatever the state that stores both *)
+Theorem C03_strongly_see_function_of_ancestry :
+  forall genesis all self1 self2 oracle1 oracle2 ops1 ops2 x w e1x e2x e1w e2w,
+  ids_determine all -> no_accept all -> Forall (hop_ok all) ops1 -> Forall (hop_ok all) ops2 ->
+  let st1 := hrun (init_hg self1 genesis oracle1) ops1 in
+  let st2 := hrun (init_hg self2 genesis oracle2) ops2 in
+  get_event st1 x = Some e1x -> get_event st2 x = Some e2x ->
+  get_event st1 w = Some e1w -> get_event st2 w = Some e2w ->
+  strongly_see st1 x w genesis = strongly_see st2 x w genesis /\ strongly_see st1 x w genesis <> None.
+Proof.
+  exact (fun g all s1 s2 o1 o2 ops1 ops2 x w e1x e2x e1w e2w ID NA H1 H2 =>
+           u_strongly_see g all ID NA s1 s2 o1 o2 ops1 ops2 H1 H2 x w e1x e2x e1w e2w).
+Qed.
+Print Assumptions C03_strongly_see_function_of_ancestry.
+
 (* FULL STATEMENTS not yet proved (evaluated on every generated DAG by the check) *)
 Definition is_topological (evs : list event) : Prop :=
   forall i e, nth_error evs i = Some e ->
     (e_sp e = -1 \/ exists j p, (j < i)%nat /\ nth_error evs j = Some p /\ e_id p = e_sp e) /\
     (e_op e = -1 \/ exists j p, (j < i)%nat /\ nth_error evs j = Some p /\ e_id p = e_op e).
 Definition obs (st : hg) (x : Z) := option_map (fun e => (ev_round e, ev_lt e)) (get_event st x).
+(* the observation of a shared event does not depend on the order / cut (proved part of the statement
+   below: what is missing there is that the same events get ADMITTED under every topological order) *)
+Theorem C03_order_independent_shared :
+  forall genesis all self1 self2 oracle1 oracle2 ops1 ops2 x,
+  ids_determine all -> no_accept all -> Forall (hop_ok all) ops1 -> Forall (hop_ok all) ops2 ->
+  let st1 := hrun (init_hg self1 genesis oracle1) ops1 in
+  let st2 := hrun (init_hg self2 genesis oracle2) ops2 in
+  get_event st1 x <> None -> get_event st2 x <> None -> obs st1 x = obs st2 x.
+Proof. exact (fun g all s1 s2 o1 o2 ops1 ops2 x ID NA H1 H2 => u_obs g all ID NA s1 s2 o1 o2 ops1 ops2 H1 H2 x). Qed.
+Print Assumptions C03_order_independent_shared.
+
 Definition C03_order_independent_statement : Prop :=
   forall genesis evs evs', Permutation evs evs' -> is_topological evs -> is_topological evs' ->
     forall x, obs (run (init_hg (-1) genesis []) evs) x = obs (run (init_hg (-1) genesis []) evs') x.
@@ -59,3 +123,18 @@ Definition C03_prefix_statement : Prop :=
   forall genesis evs more,
     exists l, map b_txs (delivered (run (init_hg (-1) genesis []) (evs ++ more)))
             = map b_txs (delivered (run (init_hg (-1) genesis []) evs)) ++ l.
+
+(* non-vacuity of the S2/S3 theorems: the C01 example (two nodes, 24 / 17 events of one DAG) *)
+Example C03_example_functions :
+  let g := [mkPeer 100 0; mkPeer 101 1] in
+  let ev k := mkEvent k (k mod 2) (k / 2) (if k <? 2 then -1 else k - 2) (if k =? 0 then -1 else k - 1) k
+                      (Z.even (k / 3)) (100 - k) [k] [] [] true in
+  let all := map ev (zseq 0 24) in
+  let st1 := hrun (init_hg 0 g []) (map HInsert all) in
+  let st2 := hrun (init_hg 1 g []) (map HInsert (firstn 17 all)) in
+  no_acceptb all = true /\ failed st1 = false /\ failed st2 = false /\
+  map (obs st1) (zseq 0 17) = map (obs st2) (zseq 0 17) /\
+  obs st2 16 = Some (Some 8, Some 16) /\
+  strongly_see st1 16 13 g = Some true /\ strongly_see st2 16 13 g = Some true /\
+  strongly_see st1 16 16 g = Some false /\ strongly_see st2 16 16 g = Some false.
+Proof. vm_compute. repeat split; reflexivity. Qed.
